@@ -249,6 +249,11 @@ func (pt *protoTable) decodeResp(op string, b []byte) (map[string]interface{}, [
 			}
 			return m, []byte{}
 		}
+		if int64(len(rest)) < n {
+			// fewer bytes than announced (the transfer was cut: only legal together with a closed connection)
+			m["k"] = od.Kind + "Cut"
+			return m, rest
+		}
 		if int64(len(rest)) != n {
 			return garbage()
 		}
